@@ -319,7 +319,15 @@ def ob_e2e(tier):
                 wrong.append({"field": ".".join(pth), "value": repr(v)})
         if wrong:
             bad.append({"family": "leader", "what": f"blank field did not surface as -1 / NaN / '' (pattern {pattern})", "first": wrong[:3]})
-        _probe_tree("leader", bytes(blank))  # and the transformers accept the blanked document
+        # the transformers accept the blanked document and build the SAME tree shape: every location (group, variable element, attribute)
+        # of the filled leader exists - a blank is a value (-1 / NaN / ''), it never removes an element or adds one
+        locs_blank = [k for k, _ in _probe_tree("leader", bytes(blank))]
+        locs_full = [k for k, _ in _probe_tree("leader", bytes(raw))]
+        if sorted(map(str, locs_blank)) != sorted(map(str, locs_full)):
+            missing = [k for k in locs_full if k not in set(locs_blank)][:3]
+            extra = [k for k in locs_blank if k not in set(locs_full)][:3]
+            bad.append({"family": "leader", "what": f"blank fields (pattern {pattern}) change the shape of the tree", "missing": missing, "extra": extra,
+                        "locations": (len(locs_full), len(locs_blank))})
       except Exception as e:  # noqa: BLE001
         bad.append({"family": "leader", "what": f"leader with blank fields (pattern {pattern}) raised {type(e).__name__}: {str(e)[:150]}"})
     res = {"verdict": "violated" if bad else "discharged", "queries": runs, "replays": runs}
